@@ -63,6 +63,7 @@ for _m in ["GET", "HEAD", "POST", "PUT", "DELETE", "CONNECT", "OPTIONS", "TRACE"
 CTORS.update({("Phase", "SendLine"): ("PLine", None), ("Phase", "SendHeaders"): ("PHeaders", "usize"), ("Phase", "SendBody"): ("PBody", None),
               ("Phase", "RecvResponse"): ("PRecvResponse", None), ("Phase", "RecvBody"): ("PRecvBody", None)})
 CTORS.update(dict((("CloseReason", r), (r, None)) for r in ("Http10", "ClientConnectionClose", "ServerConnectionClose", "Not100Continue", "CloseDelimitedBody")))
+STATUS_CLASS = {"is_informational": 100, "is_success": 200, "is_redirection": 300, "is_client_error": 400, "is_server_error": 500}
 CTORS.update({("CallHolder", "WithoutBody"): ("HvWithoutBody", "Phase"), ("CallHolder", "WithBody"): ("HvWithBody", "Phase")})
 CTORS.update({("Status", "Complete"): ("HpComplete", "usize"), ("Status", "Partial"): ("HpPartial", None)})
 CTORS.update({("RedirectAuthHeaders", "Never"): ("Never", None), ("RedirectAuthHeaders", "SameHost"): ("SameHost", None)})
@@ -583,6 +584,11 @@ class Tr(object):
             return "(len %s)" % env[recv[1][0]].fields["out"]
         if name in self.cfg.get("methods", {}):
             return "(%s %s)" % (self.cfg["methods"][name], " ".join([self.pure(recv, env)] + [self.pure(a, env) for a in args]))
+        if name in STATUS_CLASS and not args:
+            # http::StatusCode class tests on a status held as a number
+            lo = STATUS_CLASS[name]
+            x = self.pure(recv, env)
+            return "((N.leb %d %s) && (N.ltb %s %d))" % (lo, x, x, lo + 100)
         if name in ("is_err", "is_none") and not args and recv[0] == "mcall" and recv[2] == "to_str":
             return "(match %s with Some _ => false | None => true end)" % self.pure(recv, env)
         if name == "count" and not args:
